@@ -24,7 +24,7 @@ _CACHE = {}
 
 HOSTILE = ('}', '{', ']', '[', '$', '$$', '\\', '\\\\', '\\begin{x}', '\\end{x}', '\\item', '%', '\\(', '\\)', '\\[',
            '\\]', '\\end{itemize}', '\\end{center}', '\\end{equation}', '\\begin{verbatim}', '\\zq{a}', '\\begin{zq}',
-           ' ', 'a', '\\textbf', '\\%', '{a}', '\\left(')
+           ' ', 'a', '\\textbf', '\\%', '{a}', '\\left(', '\\end{verbatim}', '\\end{lstlisting}', '\\end{Verbatim}')
 LIVE = ('note', ' \\zq{a}.', ' {b}.', '', ' $m$.', '\\zq.')        # payloads after an escaped percent: parsed normally
 PROBES = ('zq', 'x', 'item', 'textbf', 'begin', 'end', 'verbatim', 'left(', 'itemize', '$', '$$', 'BraceGroup',
           'BracketGroup', 'displaymath', 'math', 'a')
